@@ -2,6 +2,7 @@ import QuickAdd.Model.Rules
 import QuickAdd.Lemmas.Cal
 import QuickAdd.Lemmas.RegexGroups
 import QuickAdd.Lemmas.Capture
+import QuickAdd.Lemmas.IvOrdDef
 /-!
 # Every production keeps its result well formed (C02), for all argument values
 
@@ -26,14 +27,23 @@ def OptOk (o : Option Time) : Prop := ∀ t, o = some t → t.Ok
 /-- the captured day/month/hour/minute texts of a token read as in-range numbers (or `int()` fails on them) -/
 def TokOk (k : Tok) : Prop := ∀ n lo hi w, fieldRange n = some (lo, hi) → k.group n = some w → intInRange lo hi w = true
 
+/-- well formed: field ranges of every end; a dated interval does not start after it ends; a duration is not negative -/
 def Val.Ok : Val → Prop
   | .tok k => TokOk k
   | .time t => t.Ok
-  | .interval f t => OptOk f ∧ OptOk t
-  | .duration _ _ => True
+  | .interval f t => OptOk f ∧ OptOk t ∧ IvOrd f t
+  | .duration n _ => 0 ≤ n
 
 /-- well formed **and a value**: no production hands back a pattern match -/
 def Val.OkV : Val → Prop
+  | .tok _ => False
+  | .time t => t.Ok
+  | .interval f t => OptOk f ∧ OptOk t ∧ IvOrd f t
+  | .duration n _ => 0 ≤ n
+
+/-- the field-range part alone (what the interval and duration productions are shown to keep first; the order clause is
+    added in `RulesWFIv`) -/
+def Val.OkV0 : Val → Prop
   | .tok _ => False
   | .time t => t.Ok
   | .interval f t => OptOk f ∧ OptOk t
@@ -600,14 +610,14 @@ theorem ruleTODPOD_ok (a b : Time) (ha : a.Ok) (hb : b.Ok) (v : Val) (h : ruleTO
   all_goals fin_time h
 
 /-! ### intervals -/
-theorem ruleBeforeTime_ok (k : Tok) (t : Time) (ht : t.Ok) (v : Val) (h : ruleBeforeTime k t = .ok (some v)) : v.OkV := by
+theorem ruleBeforeTime_ok (k : Tok) (t : Time) (ht : t.Ok) (v : Val) (h : ruleBeforeTime k t = .ok (some v)) : v.OkV0 := by
   unfold ruleBeforeTime at h
   split at h <;> (simp [pure, Except.pure] at h; subst h) <;> first | exact ⟨optOk_some ht, optOk_none⟩ | exact ⟨optOk_none, optOk_some ht⟩
-theorem ruleAfterTime_ok (k : Tok) (t : Time) (ht : t.Ok) (v : Val) (h : ruleAfterTime k t = .ok (some v)) : v.OkV := by
+theorem ruleAfterTime_ok (k : Tok) (t : Time) (ht : t.Ok) (v : Val) (h : ruleAfterTime k t = .ok (some v)) : v.OkV0 := by
   unfold ruleAfterTime at h
   split at h <;> (simp [pure, Except.pure] at h; subst h) <;> first | exact ⟨optOk_some ht, optOk_none⟩ | exact ⟨optOk_none, optOk_some ht⟩
 
-theorem ruleDateDate_ok (d1 d2 : Time) (h1 : d1.Ok) (h2 : d2.Ok) (v : Val) (h : ruleDateDate d1 d2 = .ok (some v)) : v.OkV := by
+theorem ruleDateDate_ok (d1 d2 : Time) (h1 : d1.Ok) (h2 : d2.Ok) (v : Val) (h : ruleDateDate d1 d2 = .ok (some v)) : v.OkV0 := by
   have : v = .interval (some d1) (some d2) := by
     unfold ruleDateDate at h
     cases hy1 : d1.year <;> cases hy2 : d2.year <;> cases hm1 : d1.month <;> cases hm2 : d2.month <;> cases hd1 : d1.day <;> cases hd2 : d2.day <;>
@@ -616,7 +626,7 @@ theorem ruleDateDate_ok (d1 d2 : Time) (h1 : d1.Ok) (h2 : d2.Ok) (v : Val) (h : 
     all_goals (first | exact h.symm | (simp [pure, Except.pure] at h; exact h.symm))
   subst this; exact ⟨optOk_some h1, optOk_some h2⟩
 
-theorem ruleDateTimeDateTime_ok (d1 d2 : Time) (h1 : d1.Ok) (h2 : d2.Ok) (v : Val) (h : ruleDateTimeDateTime d1 d2 = .ok (some v)) : v.OkV := by
+theorem ruleDateTimeDateTime_ok (d1 d2 : Time) (h1 : d1.Ok) (h2 : d2.Ok) (v : Val) (h : ruleDateTimeDateTime d1 d2 = .ok (some v)) : v.OkV0 := by
   have : v = .interval (some d1) (some d2) := by
     unfold ruleDateTimeDateTime at h
     cases hy1 : d1.year <;> cases hy2 : d2.year <;> cases hm1 : d1.month <;> cases hm2 : d2.month <;> cases hd1 : d1.day <;> cases hd2 : d2.day <;>
@@ -626,7 +636,7 @@ theorem ruleDateTimeDateTime_ok (d1 d2 : Time) (h1 : d1.Ok) (h2 : d2.Ok) (v : Va
     all_goals (first | exact h.symm | (simp [pure, Except.pure] at h; exact h.symm))
   subst this; exact ⟨optOk_some h1, optOk_some h2⟩
 
-theorem ruleDOMDate_ok (d1 d2 : Time) (h1 : d1.Ok) (h2 : d2.Ok) (v : Val) (h : ruleDOMDate d1 d2 = .ok (some v)) : v.OkV := by
+theorem ruleDOMDate_ok (d1 d2 : Time) (h1 : d1.Ok) (h2 : d2.Ok) (v : Val) (h : ruleDOMDate d1 d2 = .ok (some v)) : v.OkV0 := by
   have : v = .interval (some { year := d2.year, month := d2.month, day := d1.day }) (some d2) := by
     unfold ruleDOMDate at h
     cases hd1 : d1.day <;> cases hd2 : d2.day <;>
@@ -635,7 +645,7 @@ theorem ruleDOMDate_ok (d1 d2 : Time) (h1 : d1.Ok) (h2 : d2.Ok) (v : Val) (h : r
     all_goals (first | exact h.symm | (simp [pure, Except.pure] at h; exact h.symm))
   subst this; exact ⟨optOk_some (by ok_rec), optOk_some h2⟩
 
-theorem ruleDateDOM_ok (d1 d2 : Time) (h1 : d1.Ok) (h2 : d2.Ok) (v : Val) (h : ruleDateDOM d1 d2 = .ok (some v)) : v.OkV := by
+theorem ruleDateDOM_ok (d1 d2 : Time) (h1 : d1.Ok) (h2 : d2.Ok) (v : Val) (h : ruleDateDOM d1 d2 = .ok (some v)) : v.OkV0 := by
   have : v = .interval (some d1) (some { year := d1.year, month := d1.month, day := d2.day }) := by
     unfold ruleDateDOM at h
     cases hd1 : d1.day <;> cases hd2 : d2.day <;>
@@ -644,7 +654,7 @@ theorem ruleDateDOM_ok (d1 d2 : Time) (h1 : d1.Ok) (h2 : d2.Ok) (v : Val) (h : r
     all_goals (first | exact h.symm | (simp [pure, Except.pure] at h; exact h.symm))
   subst this; exact ⟨optOk_some h1, optOk_some (by ok_rec)⟩
 
-theorem ruleDOYDate_ok (d1 d2 : Time) (h1 : d1.Ok) (h2 : d2.Ok) (v : Val) (h : ruleDOYDate d1 d2 = .ok (some v)) : v.OkV := by
+theorem ruleDOYDate_ok (d1 d2 : Time) (h1 : d1.Ok) (h2 : d2.Ok) (v : Val) (h : ruleDOYDate d1 d2 = .ok (some v)) : v.OkV0 := by
   have : v = .interval (some { year := d2.year, month := d1.month, day := d1.day }) (some d2) := by
     unfold ruleDOYDate at h
     cases hm1 : d1.month <;> cases hm2 : d2.month <;> cases hd1 : d1.day <;> cases hd2 : d2.day <;>
@@ -653,10 +663,10 @@ theorem ruleDOYDate_ok (d1 d2 : Time) (h1 : d1.Ok) (h2 : d2.Ok) (v : Val) (h : r
     all_goals (first | exact h.symm | (simp [pure, Except.pure] at h; exact h.symm))
   subst this; exact ⟨optOk_some (by ok_rec), optOk_some h2⟩
 
-theorem rulePODPOD_ok (t1 t2 : Time) (h1 : t1.Ok) (h2 : t2.Ok) (v : Val) (h : rulePODPOD t1 t2 = .ok (some v)) : v.OkV := by
+theorem rulePODPOD_ok (t1 t2 : Time) (h1 : t1.Ok) (h2 : t2.Ok) (v : Val) (h : rulePODPOD t1 t2 = .ok (some v)) : v.OkV0 := by
   simp [rulePODPOD, pure, Except.pure] at h; subst h; exact ⟨optOk_some h1, optOk_some h2⟩
 
-theorem ruleTODTOD_ok (t1 t2 : Time) (h1 : t1.Ok) (h2 : t2.Ok) (v : Val) (h : ruleTODTOD t1 t2 = .ok (some v)) : v.OkV := by
+theorem ruleTODTOD_ok (t1 t2 : Time) (h1 : t1.Ok) (h2 : t2.Ok) (v : Val) (h : ruleTODTOD t1 t2 = .ok (some v)) : v.OkV0 := by
   unfold ruleTODTOD at h
   cases hh1 : t1.hour <;> cases hh2 : t2.hour <;>
     simp [hh1, hh2, need, bind, Except.bind, pure, Except.pure, throw, throwThe, MonadExceptOf.throw] at h
@@ -692,7 +702,7 @@ theorem mk_ok (d x : Time) (hd : d.Ok) (hx : x.Ok) :
     ({ year := d.year, month := d.month, day := d.day, hour := x.hour, minute := x.minute, pod := x.pod } : Time).Ok := by ok_rec
 
 theorem ruleDateInterval_ok (d : Time) (f t : Option Time) (hd : d.Ok) (hf : OptOk f) (ht : OptOk t) (v : Val)
-    (h : ruleDateInterval d f t = .ok (some v)) : v.OkV := by
+    (h : ruleDateInterval d f t = .ok (some v)) : v.OkV0 := by
   unfold ruleDateInterval at h
   cases f with
   | none =>
@@ -788,7 +798,7 @@ theorem optOk_map (g : Time → Time) (hg : ∀ x, x.Ok → (g x).Ok) (o : Optio
   | some x => exact optOk_some (hg x (ho x rfl))
 
 theorem rulePODInterval_ok (p : Time) (f t : Option Time) (hf : OptOk f) (ht : OptOk t) (v : Val)
-    (h : rulePODInterval p f t = .ok (some v)) : v.OkV := by
+    (h : rulePODInterval p f t = .ok (some v)) : v.OkV0 := by
   unfold rulePODInterval at h
   cases hp : p.pod with
   | none => simp [hp, needS, bind, Except.bind, throw, throwThe, MonadExceptOf.throw] at h
@@ -803,7 +813,7 @@ theorem rulePODInterval_ok (p : Time) (f t : Option Time) (hf : OptOk f) (ht : O
 
 /-- the consistency productions hand the interval back unchanged -/
 theorem ruleDurationInterval_ok (n : Int) (u : DUnit) (f t : Option Time) (hf : OptOk f) (ht : OptOk t) (v : Val)
-    (h : ruleDurationInterval n u f t = .ok (some v)) : v.OkV := by
+    (h : ruleDurationInterval n u f t = .ok (some v)) : v.OkV0 := by
   unfold ruleDurationInterval at h
   cases f with
   | none => simp [throw, throwThe, MonadExceptOf.throw] at h
@@ -838,7 +848,7 @@ theorem dt_valid (t : Time) (dt : Ts) (h : t.dt = .ok dt) : dt.date.Valid := by
       · simp [throw, throwThe, MonadExceptOf.throw] at h
     · simp [throw, throwThe, MonadExceptOf.throw] at h
 
-theorem ruleTimeDuration_ok (t : Time) (n : Int) (u : DUnit) (ht : t.Ok) (v : Val) (h : ruleTimeDuration t n u = .ok (some v)) : v.OkV := by
+theorem ruleTimeDuration_ok (t : Time) (n : Int) (u : DUnit) (ht : t.Ok) (v : Val) (h : ruleTimeDuration t n u = .ok (some v)) : v.OkV0 := by
   unfold ruleTimeDuration at h
   cases hs : t.start with
   | error e => simp [hs, bind, Except.bind] at h
@@ -850,7 +860,7 @@ theorem ruleTimeDuration_ok (t : Time) (n : Int) (u : DUnit) (ht : t.Ok) (v : Va
       simp only [hd] at h
       have hv := dt_valid t dt hd
       have dateEnd : ∀ d : Date, (1 ≤ d.m ∧ d.m ≤ 12 ∧ 1 ≤ d.d ∧ d.d ≤ 31) →
-          (if d.inRange = true then (pure (some (Val.interval (some t) (some (tsTime d)))) : R) else pure none) = .ok (some v) → v.OkV := by
+          (if d.inRange = true then (pure (some (Val.interval (some t) (some (tsTime d)))) : R) else pure none) = .ok (some v) → v.OkV0 := by
         intro d hdd hh
         split at hh
         · simp [pure, Except.pure] at hh; subst hh
@@ -864,7 +874,7 @@ theorem ruleTimeDuration_ok (t : Time) (n : Int) (u : DUnit) (ht : t.Ok) (v : Va
         exact ⟨a1, a2, a3, by omega⟩
       have minEnd : ∀ k : Int, (if (dt.addMinutes k).date.inRange = true then
             (pure (some (Val.interval (some t) (some { year := some (dt.addMinutes k).date.y, month := some (dt.addMinutes k).date.m, day := some (dt.addMinutes k).date.d, hour := some (dt.addMinutes k).h, minute := some (dt.addMinutes k).mi }))) : R)
-          else pure none) = .ok (some v) → v.OkV := by
+          else pure none) = .ok (some v) → v.OkV0 := by
         intro k hh
         split at hh
         · rename_i hr
@@ -902,21 +912,21 @@ theorem ruleTimeDuration_ok (t : Time) (n : Int) (u : DUnit) (ht : t.Ok) (v : Va
         exact minEnd _ h
 
 /-! ### all productions -/
-theorem durationRules_ok (v : Val) (n : Int) (u : DUnit) (h : v = .duration n u) : v.OkV := by subst h; trivial
+theorem durationRules_ok (v : Val) (n : Int) (u : DUnit) (h : v = .duration n u) : v.OkV0 := by subst h; trivial
 
-theorem ruleDigitDuration_ok (k : Tok) (v : Val) (h : ruleDigitDuration k = .ok (some v)) : v.OkV := by
+theorem ruleDigitDuration_ok (k : Tok) (v : Val) (h : ruleDigitDuration k = .ok (some v)) : v.OkV0 := by
   unfold ruleDigitDuration at h
   simp only [bind, Except.bind, pure, Except.pure] at h
   peel h
   all_goals (first | (simp [throw, throwThe, MonadExceptOf.throw] at h; done) | (simp at h; subst h; trivial) | (subst h; trivial))
 
-theorem ruleNamedNumberDuration_ok (k : Tok) (v : Val) (h : ruleNamedNumberDuration k = .ok (some v)) : v.OkV := by
+theorem ruleNamedNumberDuration_ok (k : Tok) (v : Val) (h : ruleNamedNumberDuration k = .ok (some v)) : v.OkV0 := by
   unfold ruleNamedNumberDuration at h
   simp only [bind, Except.bind, pure, Except.pure] at h
   peel h
   all_goals (first | (simp [throw, throwThe, MonadExceptOf.throw] at h; done) | (simp at h; subst h; trivial) | (subst h; trivial))
 
-theorem ruleDurationHalf_ok (k : Tok) (v : Val) (h : ruleDurationHalf k = .ok (some v)) : v.OkV := by
+theorem ruleDurationHalf_ok (k : Tok) (v : Val) (h : ruleDurationHalf k = .ok (some v)) : v.OkV0 := by
   unfold ruleDurationHalf at h
   simp only [bind, Except.bind, pure, Except.pure] at h
   peel h
